@@ -321,6 +321,14 @@ func VerifGetData() {
 		cancel()
 		cancelledBefore = true
 	}
+	// param "txn" = 1: a transaction is in flight on the datastore while the client reads (its
+	// device does not answer the Set): the stream still ends with its data or with its client
+	var releaseTxn func()
+	if verifrt.Param("txn", 0) == 1 {
+		releaseTxn = ds.VerifStalledTransaction()
+		verifrt.AwaitQuiescence()
+		verifrt.Reach("transaction-in-flight")
+	}
 
 	returned, panicked := false, false
 	var rerr error
@@ -339,6 +347,16 @@ func VerifGetData() {
 		}
 		cancel() // the client gives up / gRPC cancels the context of a broken stream
 		verifrt.AwaitQuiescence()
+	}
+	returnedInTime := returned
+	if releaseTxn != nil {
+		// the verdict is taken with the transaction still in flight; it is let go only so that
+		// the goroutine census below sees the stream's goroutines alone
+		releaseTxn()
+		verifrt.AwaitQuiescence()
+		_ = ds.TransactionConfirm(context.Background(), "stalled")
+		verifrt.AwaitQuiescence()
+		verifrt.Assert(returnedInTime, "C19-getdata-returns-while-a-transaction-is-in-flight")
 	}
 	v19AssertNoPanic(panicked, enc, ctx)
 	cutShort := rerr != nil
